@@ -687,6 +687,9 @@ async fn layout(out: &mut Out, rng: &mut Rng, ups: &[Upd], force_chk_first: bool
     if rng.chance(1, 3) {
         crate::c11x::extras(out, rng, &mut real, ups).await;
     }
+    if rng.chance(1, 6) {
+        crate::c11x::covering_checkpoint(out, rng, &mut real).await;
+    }
     let r = real.rec(out).await;
     let persisted = real.persisted();
     let inv = manifest_inv(&real.man);
